@@ -136,7 +136,7 @@ func (colorizeToolS) translate(str string, initialColor ...color.Color) string {
 }
 
 func (colorizeToolS) rightPad(str, padChar string, minw int) string { //nolint:unused
-	l := minw - len(str)
+	l := minw - len([]rune(str)) // count characters, not bytes
 	if l > 0 {
 		return str + strings.Repeat(padChar, l)
 	}
